@@ -639,12 +639,18 @@ Definition cmp_plan (op : cmpop) (src : source) : list vplan :=
 Lemma compare_op_where op src e h ir :
   ha_items h = [] ->
   build_compare_op op src e h = Ok [ir] ->
-  where_is (ir_hdr ir) (spec_where (src_generics src) (top_levels (KCmp op) e h) (cmp_plan op src)).
+  where_is (ir_hdr ir) (spec_where (decl_generics (KCmp op) (src_name src) (src_generics src))
+                                   (top_levels (KCmp op) e h) (cmp_plan op src)).
 Proof.
-  intros Hi. unfold build_compare_op. cbv zeta. rewrite entry_push_with_levels by exact Hi.
+  intros Hi. unfold build_compare_op. cbv zeta.
+  replace (match op with CEq => expand_self_generics (this_ty_of (src_name src) (src_generics src)) (src_generics src)
+                    | _ => src_generics src end)
+    with (decl_generics (KCmp op) (src_name src) (src_generics src)) by (destruct op; reflexivity).
+  generalize (decl_generics (KCmp op) (src_name src) (src_generics src)) as g0. intros g0.
+  rewrite entry_push_with_levels by exact Hi.
   rewrite push_levels_resolve, spec_where_wadd.
   destruct (resolve (top_levels (KCmp op) e h) true) as [c ub]. cbn [fst snd].
-  destruct src as [s fs|en vs]; cbn [cmp_plan src_generics].
+  destruct src as [s fs|en vs]; cbn [cmp_plan].
   - destruct (build_from_fields op fs ub _) as [[l w']| |] eqn:Eb; cbn [bind]; try discriminate.
     apply from_fields_contrib in Eb. intros X; inversion X; subst.
     unfold where_is, mk_hdr. cbn [ir_hdr ih_wtypes ih_wpreds].
@@ -709,7 +715,8 @@ Lemma enum_entry_where en h vs e ir :
   ha_items h = [] ->
   enum_entry en h vs e = Ok (Ok [ir]) ->
   exists vp, enum_vplans (en_kind e) h vs = Some vp /\
-             where_is (ir_hdr ir) (spec_where (e_generics en) (top_levels (en_kind e) e h) vp).
+             where_is (ir_hdr ir) (spec_where (decl_generics (en_kind e) (e_name en) (e_generics en))
+                                              (top_levels (en_kind e) e h) vp).
 Proof.
   intros Hi. unfold enum_entry. destruct (en_kind e) eqn:Ek; try discriminate; intros X; inversion X as [Hb]; clear X;
     cbn [enum_vplans]; rewrite ?top_levels_nohelper by reflexivity.
